@@ -22,7 +22,7 @@ from c15 import top_level_split, kind_of, run_model
 PID = "C03"
 
 WRONG_KIND = {
-    "KInteger": ["'str'", ".RED.", "(1)", "#1", "1.5E3x"],
+    "KInteger": ["'str'", ".RED.", "(1)", "#1", "1.5E3x", "20.75", "3."],
     "KReal": ["'str'", ".T.", "(1.)", "abc"],
     "KNumber": ["'s'", ".T."],
     "KString": ["12", ".RED.", "(1)", "4.5"],
@@ -81,7 +81,7 @@ def mutate(r, g, insts, per_class=2):
                             cls = "missing_required_aggregate"
                         elif kind == "KSelect":
                             cls = "select_outside_list"
-                        cands.append((cls, "%s.%s (%s) := %s" % (owner, an, kind, bad), with_toks(toks[:a] + [bad] + toks[b:]), iid, False))
+                        cands.append((cls, "%s.%s (%s%s) := %s" % (owner, an, kind, " optional" if opt else "", bad), with_toks(toks[:a] + [bad] + toks[b:]), iid, False))
                     cands.append(("star_not_derived", "%s.%s (%s) := *" % (owner, an, kind), with_toks(toks[:a] + ["*"] + toks[b:]), iid, False))
                     if kind == "KEntity":
                         wrong = [i["id"] for i in insts if not i["complex"] and i["parts"][0][0] not in at[1]]
@@ -124,6 +124,8 @@ def mutate(r, g, insts, per_class=2):
     out, seen = [], {}
     for c in cands:
         key = c[0]
+        if " := " in c[1] and c[0] in ("wrong_kind", "undeclared_enum_item", "dangling_reference", "select_outside_list"):
+            key = c[0] + " " + c[1].split(" (", 1)[1]        # "<kind>) := <bad value>", optional and required apart
         if seen.get(key, 0) < per_class:
             seen[key] = seen.get(key, 0) + 1
             out.append(c)
